@@ -115,6 +115,12 @@ def decodeBody (f : Features) (cached : Option ResultMeta) (h : Header) (body : 
 def lz4Guard (body : Bytes) : Bool :=
   body.length ≥ 4 ∧ beNat (body.take 4) ≤ 255 * (body.length - 4) + 64
 
+/-- `decompress(body, Lz4)` (`frame/mod.rs`): the size guard, then `lz4_flex::decompress(comp_body, uncomp_len)`,
+an external crate (`ext` = its block decoder) that decodes into a buffer of `uncomp_len` bytes and truncates it to
+what was produced — so it never returns more than the declared size. -/
+def lz4Decomp (ext : Bytes → Option Bytes) (body : Bytes) : Option Bytes :=
+  if lz4Guard body then (ext (body.drop 4)).filter (fun out => out.length ≤ beNat (body.take 4)) else none
+
 /-- The whole pipeline on the bytes of one frame.  `decomp` is the negotiated decompressor (LZ4 / Snappy are
 external crates: a parameter of the model, fuzzed by the harness), `none` when no compression was negotiated;
 `uni` is the class table of non-ASCII scalars (parameter, see TypeParser.lean). -/
